@@ -127,3 +127,36 @@ def hexa_color_str(s: str) -> bool:
     if not t:
         return done(got == "#000000")
     return done(t.startswith("#") and got == t)
+
+
+HEXD = "0123456789abcdefABCDEF"
+COLOR_ALPHA = "#+-_ 0aFx" + chr(0x661)  # (U+0661 ARABIC-INDIC DIGIT ONE: a digit for str.isalnum() and int(), not a hex digit of the schema)
+
+
+def color_decode_form(s: str) -> bool:
+    """
+    pre: len(s) == 7 and all(c in COLOR_ALPHA for c in s)
+    post: _
+    """
+    # hex2rgb decodes exactly the strings of the form #RRGGBB (hex digits of the schema) and rejects the rest
+    from odfdo.utils.color import hex2rgb
+    valid = s[0] == "#" and all(c in HEXD for c in s[1:])
+    try:
+        r, g, b = hex2rgb(s)
+    except ValueError:
+        return done(not valid)
+    return done(valid and 0 <= r <= 255 and 0 <= g <= 255 and 0 <= b <= 255)
+
+
+def color_decode_short(s: str) -> bool:
+    """
+    pre: len(s) <= 8 and len(s) != 7
+    post: _
+    """
+    # any string that is not 7 characters long is rejected
+    from odfdo.utils.color import hex2rgb
+    try:
+        hex2rgb(s)
+    except ValueError:
+        return done(True)
+    return done(False)
